@@ -443,3 +443,78 @@ Proof.
       exists ck, (p, j). split; [exact Hck|]. split; [exact Hvck|]. split; [exact Hloc|].
       split; [exact Eu|]. split; [exact Hlt|exact Hb].
 Qed.
+
+(* ------------------------------------------------------------------------- *)
+(* without IgnoreInconsistency every version inside the bounds is visible *)
+
+Lemma bound_ok_before : forall cis cl np i ck,
+  vidx_ok cl -> mono cis cl -> nth_error cl i = Some ck ->
+  match np with Some n => stamp cis ck < pstamp cis n | None => True end ->
+  bound_ok cis cl np ck.
+Proof.
+  intros cis cl np i ck Hv Hm Hi Hlt. unfold bound_ok. destruct np as [n|]; [|exact I].
+  destruct (visible_only (current_at cis cl (pstamp cis n))) as [cn|] eqn:Ecn; [|exact Hlt].
+  destruct (visible_only_some _ _ Ecn) as [Hcn _]. rewrite (current_at_pos cis _ cl Hm) in Hcn.
+  destruct (at_pos_some _ _ _ Hcn) as [mn [Emn Hmn]].
+  pose proof (Hv _ _ Hmn) as Hvn. pose proof (Hv _ _ Hi) as Hvi.
+  assert (i < pre (le_T cis (pstamp cis n)) cl)%nat as Hpos.
+  { destruct (Nat.lt_ge_cases i (pre (le_T cis (pstamp cis n)) cl)) as [H|H]; [exact H|]. exfalso.
+    pose proof (pre_ge _ cl i ck (le_T_closed cis _ cl Hm) H Hi) as Hf.
+    unfold le_T in Hf. apply Z.leb_gt in Hf. lia. }
+  destruct (Nat.eq_dec i mn) as [E|E].
+  - right. rewrite <- E in Hmn. rewrite Hi in Hmn. inversion Hmn; subst cn. split; [reflexivity|exact Hlt].
+  - left. lia.
+Qed.
+
+Lemma group_between_visible : forall cis o fid cl par np locs s ups,
+  vidx_ok cl -> stamps_monotone cis cl = true -> forallb (commit_child cis) cl = true ->
+  cl <> [] -> commit_parent cis par = true -> np_commit cis np ->
+  o_ignore_incons o = false ->
+  group_plan cis o fid cl par np locs = Ok (Some s, ups) ->
+  forall ck, In ck cl -> (c_vidx s < c_vidx ck)%nat -> bound_ok cis cl np ck -> c_visible ck = true.
+Proof.
+  intros cis o fid cl par np locs s ups Hv Hsm Hc Hne Hcp Hnp Hig H ck Hck Hlt Hb.
+  destruct (group_updates_exact cis o fid cl par np locs s ups Hv Hsm Hc Hne Hcp Hnp H) as [_ [Hspos _]].
+  unfold group_plan in H. fold (pstamp cis par) in H.
+  destruct (find_visible cis cl (p_changeset par) (pstamp cis par) (o_threshold o)) as [s0|] eqn:Es;
+    [|rewrite Hig in H; discriminate].
+  destruct (next_version_index cis (Some s0) cl np o) as [nv|] eqn:Env; [|discriminate].
+  destruct (updates_loop cis o fid cl locs (S (c_vidx s0)) (nv - S (c_vidx s0)) []) as [ups0|] eqn:Eu; [|discriminate].
+  inversion H; subst s0 ups0.
+  apply In_nth_error in Hck. destruct Hck as [i Hi]. pose proof (Hv _ _ Hi) as Hvi.
+  eapply (updates_loop_all_visible _ _ _ _ _ _ _ _ _ Hig Eu).
+  apply in_slice. exists i. split; [lia|]. split; [|exact Hi].
+  assert (i < nv)%nat by (apply (next_version_commit cis o cl np s nv Hv Hsm Hc Hne Hnp Hspos Env i ck Hi); [lia|exact Hb]).
+  lia.
+Qed.
+
+Lemma between_visible : forall cis o ps hist entries sortf ps' results p par j r cl s,
+  valid_order o ps entries ->
+  compute_with cis o ps hist entries sortf = Ok (ps', results) ->
+  nth_error ps p = Some par -> p_visible par = true ->
+  commit_parent cis par = true -> np_commit cis (nth_error ps (S p)) ->
+  nth_error (p_refs par) j = Some r -> filtered_out (o_filter o) r = false ->
+  hist (r_id r) = HFound cl -> cl <> [] ->
+  vidx_ok cl -> stamps_monotone cis cl = true -> forallb (commit_child cis) cl = true ->
+  visible_only (current_at cis cl (pstamp cis par)) = Some s ->
+  o_ignore_incons o = false ->
+  forall ck, In ck cl -> (c_vidx s < c_vidx ck)%nat -> bound_ok cis cl (nth_error ps (S p)) ck ->
+  c_visible ck = true.
+Proof.
+  intros cis o ps hist entries sortf ps' results p par j r cl s Hv Hc Hp Hvis Hcp Hnp Hj Hf Hh Hne Hvx Hsm Hcc Hsel Hig.
+  rewrite compute_with_plans in Hc.
+  destruct (all_plans cis o ps hist entries) as [pls|] eqn:E; [|discriminate]. clear Hc.
+  pose proof (all_plans_src cis o ps hist entries pls (valid_order_ok o ps entries Hv) E) as Hsrc.
+  destruct (plan_exists cis o ps hist entries pls p par j r cl Hv E Hp Hvis Hj Hf Hh Hne)
+    as [pl [Hpl [Epl [Hloc Hchild]]]].
+  destruct (Hsrc pl Hpl) as [fid [cl' [par' [Hh' [Hne' [Hp' [Hvis' [Hgp Hlocs]]]]]]]].
+  rewrite Epl, Hp in Hp'. inversion Hp'; subst par'. rewrite Epl in Hgp.
+  destruct (Hlocs _ Hloc) as [_ Hfid]. unfold loc_fid in Hfid. cbn [fst snd] in Hfid.
+  rewrite Hp, Hj in Hfid. cbn [option_map] in Hfid. inversion Hfid; subst fid.
+  rewrite Hh in Hh'. inversion Hh'; subst cl'.
+  fold (pstamp cis par) in Hchild.
+  rewrite (find_visible_commit cis (p_changeset par) (pstamp cis par) (o_threshold o) cl Hcc Hsm), Hsel in Hchild.
+  rewrite Hchild in Hgp.
+  exact (group_between_visible cis o (r_id r) cl par (nth_error ps (S p)) (pl_locs pl) s (pl_ups pl)
+           Hvx Hsm Hcc Hne Hcp Hnp Hig Hgp).
+Qed.
